@@ -216,6 +216,7 @@ pub fn check(sc: &ConnScenario, out: &ConnOutcome, rep: &mut RunReport) {
         (Some(ck), _) => Some(ck.id.clone()),
         (None, AuthRes::Claim) => Some(Identity { name: c.name.clone(), uuid: c.uuid_u128(), props: vec![] }),
         (None, AuthRes::Profile { name, uuid, props }) => Some(Identity { name: name.clone(), uuid: u128::from_str_radix(uuid, 16).unwrap_or(0), props: props.clone() }),
+        (None, AuthRes::Derived) => Some(super::swarm::derived_identity(&c.name, c.uuid_u128())),
         (None, AuthRes::Error) => None,
     };
     if let (Some(v), Some((n, u))) = (&vouched, login_success_identity(out))
@@ -245,8 +246,15 @@ pub fn check(sc: &ConnScenario, out: &ConnOutcome, rep: &mut RunReport) {
     let _ = unhex;
 }
 
+/// A single connection over the simulated pipe, or several players through one real `Listener`.
+#[derive(Clone, Debug, serde::Serialize, serde::Deserialize, PartialEq)]
+pub enum C01Sc {
+    Conn(Box<ConnScenario>),
+    Listener(Box<crate::net::NetScenario>),
+}
+
 impl Check for C01 {
-    type Sc = ConnScenario;
+    type Sc = C01Sc;
     fn id(&self) -> &'static str {
         "C01"
     }
@@ -254,7 +262,7 @@ impl Check for C01 {
         "exploration"
     }
     fn rule_text(&self) -> String {
-        "random connections: intent status/login/transfer, secret or none, claimed identity, authentication verdict (claim, other name, other UUID, other properties, error, with latency up to 20 s), Encryption Response variant (honest; wrong, stale, plaintext, zero, truncated (0-31 byte prefix) or extended token; other key; garbage of 6 lengths; secret of 0/15/17/32 bytes), optional cookie that is valid or invalid in one respect, 0-2 targets. Non-trivial = the run reached the Encryption Response with a dishonest variant, a failing or identity-changing authentication verdict, or a cookie; distinct = distinct event-order trace hash.".into()
+        "9 of 10 evaluations - random connections: intent status/login/transfer, secret or none, claimed identity, authentication verdict (claim, other name, other UUID, other properties, error, with latency up to 20 s), Encryption Response variant (honest; wrong, stale, plaintext, zero, truncated (0-31 byte prefix) or extended token; other key; garbage of 6 lengths; secret of 0/15/17/32 bytes), optional cookie that is valid or invalid in one respect, 0-2 targets. 1 of 10 evaluations - listener mode: 2-14 players log in through one real Listener within a second or two, each with a claim, an address and (for some) a genuine cookie of its own; the authentication service vouches for an identity derived from the claim; every Login Success must carry the identity vouched for on that very connection and every admitted fresh login must have asked the service itself, with its own address. Non-trivial = the run reached the Encryption Response with a dishonest variant, a failing or identity-changing authentication verdict, or a cookie; distinct = distinct event-order trace hash.".into()
     }
     fn assumptions(&self) -> Vec<String> {
         vec![
@@ -272,10 +280,14 @@ impl Check for C01 {
             Tier::Thorough => 6_000_000,
         }
     }
-    fn generate(&self, rng: &mut Rng, _index: u64, _tier: Tier) -> ConnScenario {
-        generate(rng)
+    fn generate(&self, rng: &mut Rng, index: u64, _tier: Tier) -> C01Sc {
+        if index % 10 == 9 { C01Sc::Listener(Box::new(super::swarm::generate(rng))) } else { C01Sc::Conn(Box::new(generate(rng))) }
     }
-    fn execute(&self, sc: &ConnScenario) -> RunReport {
+    fn execute(&self, sc: &C01Sc) -> RunReport {
+        let sc: &ConnScenario = match sc {
+            C01Sc::Conn(c) => c,
+            C01Sc::Listener(n) => return super::swarm::execute(n, true, false),
+        };
         if !conn_domain_ok(sc) || !matches!(sc.client.intent, 1..=3) || sc.client.script.is_some() || !sc.client.mutations.is_empty() || !transport_is_zero_time(sc) {
             return RunReport::default();
         }
